@@ -1258,6 +1258,29 @@ func main() {
 				}
 			}
 		}
+		// input prefix mixes for every payload version on both sides of the freeze /
+		// restriction heights (otherwise valid withdrawals)
+		for _, pv := range []byte{0, 1, 2} {
+			for _, hf := range [][3]uint32{{99, 100, 100}, {100, 100, 100}, {200, 0, 100}, {200, 300, 300}, {5000, 50, 100}} {
+				for _, refs := range [][]byte{{0x4b}, {0x21}, {0x4b, 0x21}, {0x21, 0x4b}, {0x4b, 0x4b, 0x12}, {0x1f}, {}} {
+					c := base
+					c.height, c.freeze, c.restr = hf[0], hf[1], hf[2]
+					var t *txd
+					if pv == 2 {
+						t = v2tx(nine, []int{1})
+					} else {
+						t = &txd{pver: pv, progs: []code{validScript(tw, 8, nil)}}
+						if pv == 0 {
+							t.ph = []int{1}
+						} else {
+							t.oh = []int{1}
+						}
+					}
+					t.refs = append([]byte{}, refs...)
+					doCheck("corpus", c, tw, tw, tw, 12, 8, nil, t, nil)
+				}
+			}
+		}
 		// unknown payload version with and without cross-chain inputs around the freeze height
 		for _, h := range []uint32{49, 50, 99, 100} {
 			c := base
